@@ -55,6 +55,12 @@ CHECKS = {
  "C16": ("ground-truth monitor on the real `incan test`: generated test files whose verdicts are known by construction, marker files written by the test bodies as the witness of execution, summary/exit-status consistency",
          "Every generated test function (9 body kinds x markers x -k/--slow/-x selections) is run by the real runner in its own cargo test; verdict lines, marker files, summary counts and exit status must agree with the truth. Exploration.",
          "Fixtures are not generated (the runner does not wire them into the harness project).", "5/C16"),
+ "C17": ("trace monitor (exactly-once / ordering over a printed event trace): HOOK and MADE events of compiled programs constructing newtypes at every site kind with valid and invalid values; nominal-typing verdicts from the real TypeChecker",
+         "Every hook shape x underlying type x construction site is executed in real compiled programs; the stdout trace must show exactly one HOOK per construction with the same value, no value produced after a rejection, and exit 101 with the validation failure.",
+         "The hook is identified by its printed trace; constructions inside the type's own methods are exempt.", "5/C17"),
+ "C20": ("reference-model monitor: compiled programs print json_stringify / from_json round trips / == / < / dict-key collisions for generated models; Python's json parser and tuple comparison are the oracle",
+         "Hundreds (thorough: thousands) of declaration x value observations over all field types and boundary values are made on real compiled programs; JSON is compared after parsing (spelling-neutral).", 
+         "Clone independence is not observable on this tree (`.clone()` on a model is rejected by the checker) and is reported as such.", "5/C20"),
 }
 WIP = "check not built yet in this round (work in progress; see DESIGN.md section 5 for the planned monitor)"
 ALL = ["C%02d" % i for i in range(1, 21)]
